@@ -1082,6 +1082,20 @@ func SpecContains(s string, sub string) bool { return false }
 
 // ---- withdrawing the resume position before a snapshot is applied (C04) ------------------------
 //   delCalls  number of DelCheckpoint requests (every database of the target) issued
+//   withdrawalRun  1 once the withdrawal has been handed to the retry loop
+//@ func util.RetryLinearJitter(ctx, f, maxRetries, interval, jitter) (err)
+//@   trusted runs f until a run succeeds or the retries are used up; nil only if a run of f returned nil
+//@   modifies heap
+//@ func RedisOutput.invalidateCheckpoint
+//@   arith int
+//@   properties C04
+//@   replay syncer_bisyncInterruptedSnapshot
+//@   ghost var withdrawalRun mathint = 0
+//@   requires nonnil: ro != nil
+//@   modifies heap, withdrawalRun
+//@   set withdrawalRun = 1 at call RetryLinearJitter
+//@   ensures a_position_stored_on_the_target_is_withdrawn_in_every_replay_mode: result == nil && old(ro.cfg.EnableResumeFromBreakPoint) ==> withdrawalRun == 1
+
 //@ func RedisOutput.invalidateCheckpoint$1
 //@   arith int
 //@   properties C04
